@@ -2093,6 +2093,8 @@ def poincare_to_kleinian(points):
     return (points.T * mult_factor.T).T
 
 def poincare_to_halfspace(points):
+    # unsigned coordinates would wrap around (or raise) below
+    points = utils.array_like(points, integer_type=False)
     y = points[..., 0]
     v = points[..., 1:]
     x2 = utils.normsq(v)
@@ -2108,6 +2110,8 @@ def poincare_to_halfspace(points):
     return halfspace_coords
 
 def halfspace_to_poincare(points):
+    # unsigned coordinates would wrap around (or raise) below
+    points = utils.array_like(points, integer_type=False)
     y = points[..., -1]
     v = points[..., :-1]
     x2 = utils.normsq(v)
